@@ -131,7 +131,7 @@ CLAIMS = {
                   'finite numeral range) + model/implementation correspondence + independent value oracle',
         ref='DESIGN.md §5 C10'),
     'C01': dict(
-        text='Lean 4 theorems, for ALL sources: (scanner) candidate_text, matchEpfs_text, scan_reconstruct, tokens_reconstruct / '
+        text='The HTML scanner is TRANSLATED from dtml_re_class.search on every run (harness/trans_scan.py -> GenScan.lean) and proved equal to the model for every text and offset (gen_html_scanner_candidate_is_model, gen_html_scanner_search_is_model; lemmas in Lemmas/ScanGen.lean). Lean 4 theorems, for ALL sources: (scanner) candidate_text, matchEpfs_text, scan_reconstruct, tokens_reconstruct / '
              'tokens_lossless (literals and tag texts of the token stream, concatenated in order, are exactly the source), '
              'skipEol_spec (only one run of blanks/tabs ending in a newline is ever removed); (builder) nodesLits_append, '
              'soFar_pushNodes, buildAux_lits (invariant of the stack builder), compile_literals (the literal nodes of the compiled '
